@@ -153,6 +153,8 @@ SPEC = [
     dict(name="perm_correct", src=("models.py", "PermutationVariable.correct"), params={"value": L("num")}, ret=L("nat")),
     dict(name="perm_size", src=("models.py", "PermutationVariable.size"), params={}, ret="int"),
     dict(name="perm_has_children", src=("models.py", "PermutationVariable.has_children"), params={}, ret="bool"),
+    dict(name="check_input", src=("multitask.py", "Multitask.__check_input__"), params={"name": "str", "kind": "str", "values": O(L("A"))}, poly=True,
+         selfr={"_n_algorithms": ("n_algorithms", "int"), "_m_tasks": ("m_tasks", "int")}, ret=O(L(L("A"))), tuple_params=["values"]),
     dict(name="agent_trend", src=("utils.py", "agent_trend"), params={"result": "result", "idx": "int", "iters": O(L("int"))}, ret=L("num")),
     dict(name="best_agent_trend", src=("utils.py", "best_agent_trend"), params={"result": "result", "iters": O(L("int"))}, ret=L("num")),
     dict(name="agent_position", src=("utils.py", "agent_position"), params={"result": "result", "idx": "int", "iters": O(L("int"))}, ret=L("coords")),
@@ -568,6 +570,11 @@ class Fn:
                 if isinstance(ty, tuple) and ty[0] == "list":
                     return f"(Py.enumerate {atom(t)})", L(T("nat", ty[1]))
                 self.err(n, f"enumerate of a {ty}")
+            if name == "isinstance" and len(n.args) == 2 and isinstance(n.args[0], ast.Name) and n.args[0].id in self.spec.get("tuple_params", []) \
+                    and isinstance(n.args[1], ast.Name) and n.args[1].id == "tuple":
+                return "true", "bool"        # the typing SPEC declares this parameter a tuple: the non-tuple call is outside the translation
+            if name == "deepcopy" and len(n.args) == 1 and not n.keywords:
+                return self.E(n.args[0], env)  # values have no identity
             if name == "print":
                 return "()", "unit"
             if name in self.spec.get("opaque", {}):
@@ -1165,6 +1172,13 @@ class Fn:
                 env2[x] = (x, xty[1])
                 self.lines.append(f"{pad}if let some {x} := {xt} then")
                 self.S(s.body, env2, ind + 1)
+                return
+            if isinstance(test.ops[0], ast.Is) and not s.orelse and len(s.body) == 1 and isinstance(s.body[0], (ast.Return, ast.Raise)):
+                # `if X is None: return …` — afterwards X is not None
+                self.lines.append(f"{pad}let some {x} := {xt} | do")
+                self.S(s.body, dict(env), ind + 1)
+                env[x] = (x, xty[1])
+                self.muts.discard(x)
                 return
             if isinstance(test.ops[0], ast.Is) and not s.orelse and len(s.body) == 1 and isinstance(s.body[0], ast.Assign) \
                     and isinstance(s.body[0].targets[0], ast.Name) and s.body[0].targets[0].id == x:
